@@ -38,7 +38,13 @@ let d : dec ref = ref dec_default
 let buf : arr ref = ref (amake N0 N0)
 
 let is : istream ref = ref (is_new FRaw)
-let reset () = d := dec_default; buf := amake N0 N0; is := is_new FRaw
+let c : comp option ref = ref None
+let reset () = d := dec_default; buf := amake N0 N0; is := is_new FRaw; c := None
+let z_of_int (i : int) : z = if i = 0 then Z0 else if i > 0 then Zpos (pos_of_int i) else Zneg (pos_of_int (-i))
+let hexs (a : int array) : string =
+  if Array.length a = 0 then "-" else begin
+    let b = Buffer.create (2 * Array.length a) in
+    Array.iter (fun x -> Buffer.add_string b (Printf.sprintf "%02x" x)) a; Buffer.contents b end
 let fmt_of i = match i with 0 -> FZlib | 1 -> FZlibIgnore | _ -> FRaw
 let sched3_of (s : string) : (int * int * int) list =
   List.map (fun it ->
@@ -188,5 +194,131 @@ let exec (a : string array) (_input : int array ref) (bytes : string -> int arra
             let b = Array.sub (arr_to_array o) 0 (int_of_n n) in
             Some (Printf.sprintf "ok len=%d o=%s" (int_of_n n) (show b))
           end else Some (Printf.sprintf "err st=%d" (int_of_z (status_code st)))
+    end
+  | "cnew" -> c := Some (comp_new (n_of_int (num a.(1))) (n_of_int 15)); Some "ok"
+  | "cdefault" -> c := Some (comp_new dEFAULT_FLAGS (n_of_int 15)); Some "ok"
+  | "cparams" ->
+      let cc = with_params (num a.(1) <> 2) (n_of_int (num a.(2))) (n_of_int (num a.(3))) (n_of_int (num a.(4))) in
+      c := Some cc; Some (Printf.sprintf "flags=%d" (int_of_n cc.c_flags))
+  | "cflags" ->
+      let (r, _) = create_comp_flags_from_zip_params (z_of_int (num a.(1))) (z_of_int (num a.(2))) (z_of_int (num a.(3))) in
+      Some (string_of_int (int_of_z r))
+  | "creset" -> (match !c with Some cc -> c := Some (comp_reset cc) | None -> ()); Some "ok"
+  | "csetlevel" -> c := None; None
+  | "ccall" -> begin
+      match !c with None -> None | Some cc ->
+      match compress cc (nlist_of_array (bytes a.(1))) (n_of_int (num a.(2))) (n_of_int (num a.(3))) with
+      | Panic _ -> c := None; Some "PANIC"
+      | OutOfFuel -> Some "MODEL-OUT-OF-FUEL"
+      | Ret CUnmodelled -> c := None; None
+      | Ret (CRet r) ->
+          c := Some r.r_comp;
+          let o = array_of_nlist r.r_out in
+          Some (Printf.sprintf "st=%d in=%d out=%d o=%s ad=%d ub=%d"
+                  (int_of_z (tstatus_code r.r_status)) (int_of_n r.r_in)
+                  (Array.length o) (show o) (int_of_n r.r_comp.c_adler)
+                  (int_of_n r.r_comp.c_sbits))
+    end
+  | "ccallf" -> begin
+      match !c with None -> None | Some cc ->
+      let acc = if a.(3) = "-" then None else Some (n_of_int (num a.(3))) in
+      match compress_to_output cc (nlist_of_array (bytes a.(1))) (n_of_int (num a.(2))) acc with
+      | Panic _ -> c := None; Some "PANIC"
+      | OutOfFuel -> Some "MODEL-OUT-OF-FUEL"
+      | Ret CUnmodelled -> c := None; None
+      | Ret (CRet r) ->
+          c := Some r.r_comp;
+          let o = array_of_nlist r.r_out in
+          let calls = match r.r_cb with CFunc (_, _, k) -> int_of_n k | _ -> 0 in
+          Some (Printf.sprintf "st=%d in=%d cb=%d o=%s ad=%d"
+                  (int_of_z (tstatus_code r.r_status)) (int_of_n r.r_in)
+                  calls (show o) (int_of_n r.r_comp.c_adler))
+    end
+  | "dfcall" -> begin
+      match !c with None -> None | Some cc ->
+      match deflate cc (nlist_of_array (bytes a.(1))) (n_of_int (num a.(2))) (n_of_int (num a.(3))) with
+      | Panic _ -> c := None; Some "PANIC"
+      | OutOfFuel -> Some "MODEL-OUT-OF-FUEL"
+      | Ret DUnmodelled -> c := None; None
+      | Ret (DRet (code, cons, out, cc')) ->
+          c := Some cc';
+          let o = array_of_nlist out in
+          Some (Printf.sprintf "st=%d in=%d out=%d o=%s ps=%d ad=%d" (int_of_z code) (int_of_n cons) (Array.length o)
+                  (show o) (int_of_z (tstatus_code cc'.c_prev)) (int_of_n cc'.c_adler))
+    end
+  | "cdrive" | "dfdrive" -> begin
+      match !c with None -> None | Some cc0 ->
+      let stream = a.(0) = "dfdrive" in
+      let input = bytes a.(1) in
+      let sc = Array.of_list (sched3_of a.(2)) in
+      let n = Array.length sc in
+      let cc = ref cc0 in
+      let in_off = ref 0 and out = Buffer.create 256 and calls = ref 0 and stall = ref 0 in
+      let th = ref fnv_init and last = ref 99 and why = ref "cap" and tr = Buffer.create 64 in
+      let marks = Buffer.create 64 in
+      let finishing = ref false in
+      let abort = ref 0 in
+      (* the unconsumed input as a shared list: a chunk that covers all of it costs nothing *)
+      let suffix = ref (nlist_of_array input) in
+      let rec drop k l = if k = 0 then l else (match l with [] -> [] | _ :: t -> drop (k - 1) t) in
+      let rec take k l = if k = 0 then [] else (match l with [] -> [] | x :: t -> x :: take (k - 1) t) in
+      (try
+        while !calls < 400000 do
+          let (nin, nout, fl0) = sc.(!calls mod n) in
+          let e = min (!in_off + nin) (Array.length input) in
+          let clen = e - !in_off in
+          let chunk_l = if e = Array.length input then !suffix else take clen !suffix in
+          if fl0 = 4 || (!in_off >= Array.length input && !calls >= n) then finishing := true;
+          let fl = if !finishing then 4 else fl0 in
+          let res =
+            if stream then
+              (match deflate !cc chunk_l (n_of_int nout) (n_of_int fl) with
+               | Ret (DRet (code, cons, o, cc')) -> Some (int_of_z code, int_of_n cons, array_of_nlist o, cc')
+               | Ret DUnmodelled -> abort := 1; None
+               | _ -> abort := 2; None)
+            else
+              (match compress !cc chunk_l (n_of_int nout) (n_of_int fl) with
+               | Ret (CRet r) ->
+                   Some (int_of_z (tstatus_code r.r_status), int_of_n r.r_in,
+                         array_of_nlist r.r_out, r.r_comp)
+               | Ret CUnmodelled -> abort := 1; None
+               | _ -> abort := 2; None) in
+          (match res with
+           | None -> raise Exit
+           | Some (st, ic, o, cc') ->
+               cc := cc';
+               let oc = Array.length o in
+               Array.iter (fun b -> Buffer.add_char out (Char.chr b)) o;
+               in_off := !in_off + ic;
+               suffix := drop ic !suffix;
+               incr calls;
+               last := st;
+               th := fnv_step (fnv_step (fnv_step !th (st + 20000)) ic) oc;
+               if !calls <= 40 then Buffer.add_string tr (Printf.sprintf "%d/%d/%d/%d;" fl st ic oc);
+               if fl <> 0 && fl <> 4 && ic = clen && oc < nout && Buffer.length marks < 400 then
+                 Buffer.add_string marks (Printf.sprintf "%d:%d:%d;" fl !in_off (Buffer.length out));
+               if st = 1 || (st < 0 && not (stream && st = -5)) then begin why := "end"; raise Exit end;
+               if ic = 0 && oc = 0 then incr stall else stall := 0;
+               if !stall > n + 2 then begin why := "stall"; raise Exit end)
+        done
+      with Exit -> ());
+      if !abort = 1 then begin c := None; None end
+      else if !abort = 2 then begin c := None; Some "PANIC" end
+      else begin
+        c := Some !cc;
+        let o = Array.init (Buffer.length out) (fun i -> Char.code (Buffer.nth out i)) in
+        Some (Printf.sprintf "st=%d in=%d out=%d calls=%d why=%s th=%016Lx ad=%d ub=%d marks=%s tr=%s full=%s"
+                !last !in_off (Array.length o) !calls !why !th (int_of_n !cc.c_adler)
+                (int_of_n !cc.c_sbits)
+                (if Buffer.length marks = 0 then "-" else Buffer.contents marks)
+                (if Buffer.length tr = 0 then "-" else Buffer.contents tr) (hexs o))
+      end
+    end
+  | "cvec" -> begin
+      let (fl, _) = create_comp_flags_from_zip_params (z_of_int (num a.(1))) (z_of_int (if num a.(2) <> 0 then 1 else 0)) Z0 in
+      match compress_to_vec_inner (nlist_of_array (bytes a.(3))) (n_of_int (int_of_z fl)) with
+      | Ret (VBytes o) -> let o = array_of_nlist o in Some (Printf.sprintf "len=%d full=%s" (Array.length o) (hexs o))
+      | Ret VUnmodelled -> None
+      | _ -> Some "PANIC"
     end
   | _ -> None
